@@ -270,6 +270,9 @@ fn run_case(c: &Case, id: u64, seed: u64, out: &mut Out) {
                 Some(s) => {
                     ev["has_sauce"] = json!(1);
                     let font = s.font_opt.as_ref().map(|f| string_cp437(f));
+                    // the same texts as a client sees them (Display / to_string: CP437 -> Unicode), mapped back to codes
+                    ev["out_text"] = json!({"title":string_cp437(&s.title.to_string()),"author":string_cp437(&s.author.to_string()),"group":string_cp437(&s.group.to_string()),
+                        "comments":s.comments.iter().map(|c| string_cp437(&c.to_string())).collect::<Vec<_>>()});
                     ev["out"] = json!({"title":field(&s.title),"author":field(&s.author),"group":field(&s.group),
                         "comments":s.comments.iter().map(field).collect::<Vec<_>>(),"ice":s.use_ice as u8,"ls":s.use_letter_spacing as u8,"ar":s.use_aspect_ratio as u8,
                         "has_font":font.is_some() as u8,"font":font.unwrap_or_default(),"width":s.buffer_size.width,"height":s.buffer_size.height,"hdr":s.sauce_header_len});
